@@ -375,11 +375,9 @@ class PlainModel:
             self._ensure(op[1])["doc"].clear()
             return "ok"
         if k == "dreset":
-            j = self._ensure(op[1])
-            eff = dep_update(j["doc"], op[2])
-            if tagged(eff) != tagged(op[2]):
-                self.known.append("F-4b")
-            j["doc"] = eff
+            # whole-document assignment; the generators of C03/C04 keep away from values on which the
+            # dependency's `_update` differs from assignment (None, type-only changes) - C05 covers those
+            self._ensure(op[1])["doc"] = copy.deepcopy(op[2])
             return "ok"
         if k == "put":
             self._ensure(op[1])["files"][op[2]] = op[3]
@@ -561,7 +559,7 @@ def gen_ops(rng, length, nproj=2, rich=False, weights=None, allow_plant=False):
             elif r < 0.85:
                 ops.append(["dclear", h])
             else:
-                ops.append(["dreset", h, {rng.choice(DOC_KEYS): copy.deepcopy(rng.choice(DOC_VALS))}])
+                ops.append(["dreset", h, {rng.choice(DOC_KEYS): copy.deepcopy(rng.choice(DOC_VALS[:5]))}])
         elif k == "put":
             ops.append(["put", rng.choice(handles), rng.choice(FILES), rng.choice(["", "A", "BB"])])
         elif k in ("clear", "reset", "remove"):
@@ -654,12 +652,15 @@ def lockstep(ops, ctx, nproj=2, check_handles=True, stop_at_first=True):
                     pm.h.pop(op[1], None)
                 continue
             k = op[0]
-            if k in ("dset", "ddel", "dclear", "dreset", "clear", "reset") and op[1] in doc_tainted:
+            if k in ("dset", "ddel", "dclear", "dreset", "clear", "reset") and (
+                    op[1] in doc_tainted or (op[1] in stale and op[1] in doc_touched)):
                 failures.append("KNOWN[F-5c] step %d %s: %s" % (i, json.dumps(op), KNOWN_TEXT["F-5c"]))
                 records.append({"op": op, "skipped": "doc-tainted-handle"})
                 continue
             # which (project, id) does this op act on, and through which group?
             pre = copy.deepcopy(pm.h.get(op[1])) if k not in ("open", "openid", "ucache", "rmcache", "session", "plant", "drop") else None
+            if k in ("dset", "ddel", "dclear", "dreset", "clear", "reset"):
+                doc_touched.add(op[1])  # even a refused document operation leaves data in the document object
             real = rw.apply(op)
             obs = rw.observe()
             rec = {"op": op, "real": real}
